@@ -139,6 +139,17 @@ def run(ctx: Ctx) -> None:
             if fmt == 63 and lvl < 0 and not text:
                 back2 = Package.from_str(pk.to_str(conf))
                 _cmp(ctx, dict(sig, text=True), ln, pk, back2)
+            # the channel model writes the package as it is *now*: encode, change the package object, encode again
+            if ln["nm"] == 1 and ln["ne"] <= 1:
+                from hugr.hugr import Hugr
+                fresh = Hugr.load_json(pk.modules[0].to_json())          # private copies: the catalogue objects stay untouched
+                pk2 = Package([fresh], list(pk.extensions))
+                _ = pk2.to_str(conf) if text else pk2.to_bytes(conf)
+                fresh[fresh.root].metadata["edited-after-first-encoding"] = [1, None]
+                pk2.modules.append(Hugr.load_json(mods[0][1].to_json()))
+                enc2 = pk2.to_str(conf).encode("utf-8") if text else pk2.to_bytes(conf)
+                back3 = Package.from_str(enc2.decode("utf-8")) if text else Package.from_bytes(enc2)
+                _cmp(ctx, dict(sig, what2="second encoding after the package changed"), ln, pk2, back3)
 
         res = run_tlc("MC_Envelope", cfg, wd, workers=1, line_sink=sink)
         tlc_must_hold(ctx, "M+S2C envelope", res, "Envelope model")
